@@ -168,8 +168,28 @@ def main(argv):
         ht = prop.get("harness_timeout", {}).get(tier, 600 if tier == "quick" else 3600)
         flags = list(prop.get("kani_flags", []))
         kenv = {"VERIF_BUDGET": "3" if tier == "thorough" else "2"}
-        rc, out, wall, data, cmd = vlib.run_kani(crate, harnesses, jobs, ht, flags, env_extra=kenv)
         cov["interference_budget"] = int(kenv["VERIF_BUDGET"])
+        # harnesses listed under fast_harnesses run in a second invocation with the fast flags
+        fast = set(harness_path(h) for h in prop.get("fast_harnesses", []))
+        groups = [([h for h in harnesses if h not in fast], flags)]
+        if fast:
+            groups.append(([h for h in harnesses if h in fast], flags + list(P._FAST)))
+        data, out, wall, cmds = None, "", 0.0, []
+        for hs, fl in groups:
+            if not hs:
+                continue
+            rc, o, w, d, cmd = vlib.run_kani(crate, hs, jobs, ht, fl, env_extra=kenv)
+            out += o; wall += w; cmds.append(cmd)
+            if d is None:
+                data = None
+                break
+            if data is None:
+                data = d
+            else:
+                for k in ("error_details", "property_details", "cbmc", "harness_metadata"):
+                    data[k] = data.get(k, []) + d.get(k, [])
+                data["verification_results"]["results"] += d["verification_results"]["results"]
+        cmd = " ; ".join(cmds)
         res = vlib.classify(data, out, harnesses, None)
         undecided += res["undecided"]
         failed = res["failed"]
